@@ -3,6 +3,7 @@
 import json, subprocess
 claimed = {
  "C07": ("Offset, Limit (number, percent, WITH TIES), SortValue/SortValues.EquivalentTo proved against the property-level postconditions for all inputs; Evaluate's frame and sort.Sort are assumed", "4 C07"),
+ "C06": ("the coercion ladder (CompareCombinedly) and the six operators, Identical, Compare, Equivalent, the value readings (To*), Kleene connectives of the ternary dependency, BETWEEN / AND / OR / NOT / IS expansions and integer/float arithmetic are proved against the documented rules; the consistency laws of the statement are lemmas over those contracts", "4 C06"),
  "C16": ("Cursor.Fetch/Close/IsOpen/IsInRange/Count/Pointer proved against an abstract (snapshot, position) view for all positions and offsets, with machine integer arithmetic modelled exactly", "4 C16"),
 }
 na = {
